@@ -337,6 +337,13 @@ def run(res, tier, lean, prop="C04", proof_breaks=(), build_log=""):
     outs = [o.split(" # ")[0] for o in outs_full]
     res.notes["runs_with_runOk"] = sum(1 for o in outs_full if "runOk=1" in o)
     res.notes["runs_with_one_dispatcher"] = sum(1 for o in outs_full if "oneDispatcher=1" in o)
+    # instances of the global C06 theorems on the replayed runs (final state of the model): hypotheses => conclusions
+    hyp = [o for o in outs_full if "runOk=1" in o and "oneDispatcher=1" in o and "quiescent=1" in o]
+    res.notes["c06_no_deadlock_instances"] = len(hyp)
+    res.notes["c06_stop_ends_all_instances"] = sum(1 for o in hyp if "stopOk=1" in o and "regEmpty=1" in o)
+    for o in hyp:
+        if "idle=0" in o or ("stopOk=1" in o and "regEmpty=1" in o and "allDone=0" in o):
+            raise RuntimeError("the compiled model contradicts a proved theorem of WD.Props.C06 (driver/compiler problem?): " + o[-300:])
     res.notes["runs_replayed"] = len(outs_full)
     bad, judged = [], []
     judges = {"C04": [judge_c04, judge_c05, judge_c04_gap], "C05": [judge_c05], "C06": [judge_c06], "C07": [judge_c07], "C13": [judge_c13]}[prop]
